@@ -845,6 +845,10 @@ impl Write for ClientEnd {
             Some(0) => {
                 return Err(io::Error::from(io::ErrorKind::Interrupted));
             }
+            // a send timeout set on the socket fires (once): nothing is taken by this call
+            Some(u16::MAX) => {
+                return Err(io::Error::from(io::ErrorKind::WouldBlock));
+            }
             Some(k) if (k as usize) < n => n = k as usize,
             _ => {}
         }
